@@ -22,7 +22,7 @@ EXPLANATION = (
     "wait_for names with the outputs of the *other* co-ready nodes; (R4) liveness: since freshness is a strict version increase, every production "
     "of an emit output must advance its version — either the version write is not control-dependent on value inequality when the stored value is "
     "the one module-level sentinel, or emit writers store a fresh object per production; and the first production of any name always advances its "
-    "version (R4b), so a consumer that already ran on a default is re-run. (R5) every completion of an emit-capable node produces its signals: each normal return of the executors of function, route, if/else and interrupt nodes is the result of a function that stores the sentinel for every emit output (followed through helper returns and single-assignment temporaries). R3 also requires that the gate-decides-first block is computed before the deferral (a deferred gate still holds its targets back, else the loop synchronised on the signal never evaluates its gate)."
+    "version (R4b), so a consumer that already ran on a default is re-run. (R5) every completion of an emit-capable node produces its signals: each normal return of the executors of function, route, if/else and interrupt nodes is the result of a function that stores the sentinel for every emit output (followed through helper returns and single-assignment temporaries). R3 also requires that the gate-decides-first block is computed before the deferral (a deferred gate still holds its targets back, else the loop synchronised on the signal never evaluates its gate). R5 also covers completions served from the cache: on a hit the whole restored payload (data outputs and re-applied sentinels) is applied, not a projection of it."
 )
 NOT_DECIDED = "Full liveness of arbitrary loops (that the other readiness conditions eventually hold); several waiters per signal are covered only through the per-node bookkeeping."
 
